@@ -1,6 +1,6 @@
 (* C02 - Infeasible/unbounded verdicts are never wrong; rays and Farkas proofs are valid. *)
 From Coq Require Import QArith Qabs List Bool.
-From SV Require Import Vec LP Cert Cert_Proofs.
+From SV Require Import Vec LP Cert Cert_Proofs DriverModel Driver_Proofs.
 Import ListNotations.
 Local Open Scope Q_scope.
 
@@ -53,7 +53,42 @@ Theorem C02_certificates_exclusive :
 Proof. exact certificates_exclusive. Qed.
 Print Assumptions C02_certificates_exclusive.
 
+(* With ENSURERAY the solve driver (model of solvereal.hpp, DriverModel.v; tied to the code by replaying every recorded
+   control trace) never ends INFEASIBLE without a Farkas vector or UNBOUNDED without a primal ray - whatever the simplifier,
+   the scalers and the simplex engine answer, including verdicts found by presolve and verdicts on a scaled or presolved LP. *)
+Theorem C02_ensureray_offers_proof :
+  forall P orc oscaled s0 r, p_ensureray P = true -> optimize P orc oscaled FUEL s0 = Done r ->
+    (status r = INFEASIBLE -> has_farkas r = true) /\ (status r = UNBOUNDED -> has_ray r = true).
+Proof. exact ensureray_offers_proof. Qed.
+Print Assumptions C02_ensureray_offers_proof.
+
+(* and the offered vector has been mapped back to the user's problem space *)
+Theorem C02_offered_proof_in_user_space :
+  forall P orc oscaled s0 r, optimize P orc oscaled FUEL s0 = Done r ->
+    (sol_ok r || has_ray r || has_farkas r) = true -> is_user_space (sol_space r) = true.
+Proof. exact offered_solution_in_user_space. Qed.
+Print Assumptions C02_offered_proof_in_user_space.
+
 (* ---- non-vacuity ---- *)
+Definition ex_orec (sr : simp) (t : st) : orec :=
+  {| o_simp := sr; o_scaled := true; o_status := t; o_throw := false; o_vbits := (false, false, false, false);
+     o_dualfeas := true; o_cycstatus := ABORT_CYCLING; o_resbasis := true |}.
+Definition ex_state : dstate :=
+  {| simp_on := false; scaler_on := true; loaded := true; scaled := false; sol_scaled := false; intl := false;
+     has_basis := false; status := OTHER 0; has_sol := false; has_ray := false; has_farkas := false; apply_pol := false;
+     objlim_en := true; opt_calls := 0; unsc_calls := 0; sol_space := user_space; sol_ok := false; frame := O; trace := [] |}.
+(* presolve detects infeasibility: with ENSURERAY the original LP is solved again and a Farkas vector is offered; without
+   it the verdict is reported as it is, with no proof *)
+Example C02_ex_ensureray :
+  match optimize {| p_simp := true; p_scaler := true; p_persist := true; p_ensureray := true; p_objlim := false |}
+                 (fun k => if Nat.eqb k 0 then ex_orec S_INFEASIBLE (OTHER 0) else ex_orec S_OKAY INFEASIBLE) true FUEL ex_state,
+        optimize {| p_simp := true; p_scaler := true; p_persist := true; p_ensureray := false; p_objlim := false |}
+                 (fun k => ex_orec S_INFEASIBLE (OTHER 0)) true FUEL ex_state with
+  | Done r, Done r' => status r = INFEASIBLE /\ has_farkas r = true /\ frame r = 2%nat /\ status r' = INFEASIBLE /\ has_farkas r' = false
+  | _, _ => False
+  end.
+Proof. vm_compute. repeat split. Qed.
+
 Definition ex_inf : lp :=
   {| maximize := false; offset := 0;
      cols := [ {| c_obj := 1; c_lo := Some 0; c_up := Some 1 |} ];
